@@ -61,7 +61,8 @@ func main() {
 	fmts := pipe.Formats()
 	pipe.Default()
 	pipe.Skip["dyn3"] = true
-	total := o.Count(1500, 80000)
+	pipe.Skip["dc"] = true // builds an xpath from record data: fails on records the algebra treats as good
+	total := o.Count(1200, 80000)
 
 	for c := 0; c < total; c++ {
 		f := fmts[r.Pick(len(fmts))]
@@ -249,9 +250,90 @@ func main() {
 		}
 		retainedCheck(sum, base)
 	}
+	longCases(o, r, sum, cw)
 	cw.Flush()
 	sum.CaseFiles = cw.Files
 	sum.Write(o)
+}
+
+// longCases: fixedlength2 records spanning several lines in inputs of several hundred records
+// (tens of KiB: the reader's bufio refills many times).  Every record's in-stream result must be
+// the result of that record transformed ALONE.
+func longCases(o *vh.Opts, r *vh.Rng, sum *vh.Summary, cw *vh.CaseWriter) {
+	mls := pipe.MultiLineFormats()
+	n := o.Count(10, 300)
+	if o.N > 0 {
+		n = 2
+	}
+	for c := 0; c < n; c++ {
+		f := mls[r.Pick(len(mls))]
+		env := pipe.Env{}
+		pipe.OnlyMust = true
+		schema, feats := f.SchemaWith(r, []string{"plain", "cast", "fuses", "identical-decls"}, nil, env)
+		pipe.OnlyMust = false
+		comp, err := pipe.Compile(schema)
+		if err != nil {
+			sum.Fail("generated schema rejected by NewSchema", map[string]string{"format": f.Name, "schema": schema}, err.Error())
+			continue
+		}
+		ext := pipe.GenExt(r.Pick)
+		nrec := r.Between(250, 500)
+		recs := make([]pipe.Rec, nrec)
+		for i := range recs {
+			recs[i] = pipe.GenRec(r, f, r.Chance(0.9))
+			recs[i].A = fmt.Sprintf("%s%d", []string{"k", "q", "v"}[i%3], i%1000) // distinct neighbours
+			recs[i].Fill = [3]int{r.Pick(40), r.Pick(25), r.Pick(60)}
+		}
+		in := f.Render(env, recs)
+		base := map[string]interface{}{"kind": "long", "format": f.Name, "schema": schema, "ext": ext, "input_hex": fmt.Sprintf("%x", in), "records": nrec}
+		vh.Current(o, base)
+		pipe.Watch("long " + f.Name)
+		t := comp.RunReal(in, ext)
+		cut := r.Between(1, nrec-1)
+		ta := comp.RunReal(f.Render(env, recs[:cut]), ext)
+		tb := comp.RunReal(f.Render(env, recs[cut:]), ext)
+		canon, _ := json.Marshal(base)
+		nf := 0
+		for _, e := range t {
+			if e.Kind == "fail" {
+				nf++
+			}
+		}
+		sum.Count(string(canon), nf >= 1)
+		sum.Hist("kind:long")
+		sum.Hist("format:" + f.Name)
+		sum.Hist(fmt.Sprintf("long-input-bytes:%dk", len(in)/1024))
+		_ = feats
+		rt := t.Records()
+		if !cleanEOF(t) || len(rt) != nrec {
+			sum.Fail("long: the run did not deliver one result per record and a clean EOF", base, map[string]interface{}{"results": len(rt), "last": t[len(t)-1]})
+			pipe.Unwatch()
+			continue
+		}
+		for i := range recs {
+			solo := comp.RunReal(f.Render(env, recs[i:i+1]), ext)
+			if len(solo) != 2 || !eqEntry(solo[0], rt[i]) {
+				var s0 interface{}
+				if len(solo) > 0 {
+					s0 = solo[0]
+				}
+				sum.Fail(fmt.Sprintf("record %d of %d: its result in the stream differs from its result when transformed alone", i, nrec), base,
+					map[string]interface{}{"in_stream": rt[i], "alone": s0, "record": f.RenderRec(recs[i])})
+				break
+			}
+		}
+		pipe.Unwatch()
+		want := append(append(pipe.Transcript(nil), ta.Records()...), tb.Records()...)
+		if !want.Equal(rt) {
+			sum.Fail(fmt.Sprintf("long: results(A++B) differ from results(A)++results(B) at position %d", pipe.FirstDiff(want, rt)), base, nil)
+		}
+		ids := interner{}
+		la, _ := ids.list(ta.Records())
+		lb, _ := ids.list(tb.Records())
+		lab, _ := ids.list(rt)
+		cw.Add(fmt.Sprintf("C10App %s %s %s", la, lb, lab), map[string]interface{}{"kind": "long", "format": f.Name, "records": nrec})
+		retainedCheck(sum, base)
+	}
 }
 
 // retainedCheck: every []byte Read handed out during this case is still what it was
